@@ -6,10 +6,10 @@ package main
 // the direct property oracles (each tagged with the property it belongs to).
 
 import (
-	"errors"
 	"bytes"
 	"context"
 	"encoding/binary"
+	"errors"
 	"fmt"
 	"net"
 	"sort"
@@ -114,20 +114,20 @@ func (s *recStore) Get(t bep44.Target) (*bep44.Item, error) {
 	return i, err
 }
 func (s *recStore) Del(t bep44.Target) error { return s.inner.Del(t) }
-func (s *recStore) numPuts() int            { s.mu.Lock(); defer s.mu.Unlock(); return s.puts }
+func (s *recStore) numPuts() int             { s.mu.Lock(); defer s.mu.Unlock(); return s.puts }
 
 type srvOpts struct {
-	noSecurity bool
-	passive    bool
-	hook       bool
-	peerStore  bool
-	callback   bool
-	blocked    *rangeList
-	root       *[20]byte
-	publicIP   net.IP
-	mute       bool
+	noSecurity  bool
+	passive     bool
+	hook        bool
+	peerStore   bool
+	callback    bool
+	blocked     *rangeList
+	root        *[20]byte
+	publicIP    net.IP
+	mute        bool
 	waitToReply bool
-	limiter    *rate.Limiter
+	limiter     *rate.Limiter
 	defaultWant bool // ServerConfig.DefaultWant = [n4 n6] (what the node asks for in ITS OWN queries; what NewDefaultServerConfig sets)
 }
 
@@ -142,23 +142,23 @@ type srvScen struct {
 	bl     *rangeList
 	cbMu   sync.Mutex
 	cbs    []string
-	veto   bool // next hook call vetoes
+	veto   bool  // next hook call vetoes
 	now    int64 // model clock, ns
 	nextPt int
 	events []string
 	// harness-side truth for oracles
-	tokens   map[string][]tokIssue      // ip16 hex -> tokens issued
-	announced map[string]map[string]int // ih hex -> raw ip hex -> port
-	intro    map[string]bool            // id/addrkey introduced by a direct event
-	failedSince map[string]bool         // id@addr whose last questionable-node ping failed and which has not answered since (harness truth)
-	pendingPing map[string]bool         // addresses the node may be pinging because the harness called AddNode with a zero ID there
-	pendingTx map[string]bool           // addr|t of the server's own queries that are really outstanding (harness truth)
-	answered map[string]bool            // id@addr that really answered one of the server's own queries (harness truth)
-	expectW  int                        // datagrams expected so far
-	seenW    int                        // writes already attributed
-	dead     bool
-	resend   atomic.Int64
-	mute     bool // a helper server whose history is not replayed on the model
+	tokens      map[string][]tokIssue     // ip16 hex -> tokens issued
+	announced   map[string]map[string]int // ih hex -> raw ip hex -> port
+	intro       map[string]bool           // id/addrkey introduced by a direct event
+	failedSince map[string]bool           // id@addr whose last questionable-node ping failed and which has not answered since (harness truth)
+	pendingPing map[string]bool           // addresses the node may be pinging because the harness called AddNode with a zero ID there
+	pendingTx   map[string]bool           // addr|t of the server's own queries that are really outstanding (harness truth)
+	answered    map[string]bool           // id@addr that really answered one of the server's own queries (harness truth)
+	expectW     int                       // datagrams expected so far
+	seenW       int                       // writes already attributed
+	dead        bool
+	resend      atomic.Int64
+	mute        bool // a helper server whose history is not replayed on the model
 }
 
 func (sc *srvScen) op(op, impl string) {
@@ -306,8 +306,8 @@ type qspec struct {
 	ro      bool
 	rid     *[20]byte
 	// put payload (immutable)
-	v       []byte
-	hasV    bool
+	v    []byte
+	hasV bool
 	// include zero-valued optional keys explicitly
 	explicitZero bool
 }
@@ -399,21 +399,21 @@ func (q *qspec) fields() string {
 // ---- observation of what the server wrote ----
 
 type obsOut struct {
-	kind   string // none, rep, err, bad
-	dst    *net.UDPAddr
-	t      []byte
-	code   int64
-	id     []byte
-	ip     []byte
-	token  []byte
-	hasTok bool
-	values [][]byte
-	nodes  [][]byte // 26-byte entries
-	nodes6 [][]byte // 38-byte entries
-	seq    *int64
-	hasV   bool
-	raw    []byte
-	n      int // number of datagrams
+	kind     string // none, rep, err, bad
+	dst      *net.UDPAddr
+	t        []byte
+	code     int64
+	id       []byte
+	ip       []byte
+	token    []byte
+	hasTok   bool
+	values   [][]byte
+	nodes    [][]byte // 26-byte entries
+	nodes6   [][]byte // 38-byte entries
+	seq      *int64
+	hasV     bool
+	raw      []byte
+	n        int // number of datagrams
 	badWidth bool
 }
 
